@@ -77,5 +77,16 @@ func (t *Timer) Stop() bool {
 	return t.v.Stop()
 }
 
-// NewTimer, After, Tick, Timer.C and Timer.Reset are deliberately absent: a tree that starts using
-// channel-based timers must fail to build rather than escape the virtual clock.
+// Reset re-arms a timer created by AfterFunc.
+func (t *Timer) Reset(d Duration) bool {
+	if t.real != nil {
+		return t.real.Reset(d)
+	}
+	if t.v == nil {
+		return false
+	}
+	return t.v.Reset(int64(d))
+}
+
+// NewTimer, After, Tick and Timer.C are deliberately absent: a tree that starts using channel-based
+// timers must fail to build rather than escape the virtual clock.
